@@ -486,7 +486,7 @@ def check(repo, rep):
                 for e in l.effects:
                     t = e[1]
                     if e[0] == 'call' and t[0] == 'call' and t[1][0] == 'attr' and t[1][2] in ('read', 'readframes') and t[1][1] != ('self',) and t[2]:
-                        a = t[2][0]
+                        a = P._resolve_const(t[2][0])          # a named constant for -1 is -1
                         if t[1][2] == 'readframes':
                             ok = a == ('p', 'size') or (size_none and a in (('c', -1), ('c', None)))
                             if a == ('p', 'size'):
